@@ -1,3 +1,4 @@
+import ast
 import subprocess as sp
 import warnings
 
@@ -52,7 +53,20 @@ def format_code(text, filename):
                 + result.stderr.decode("utf-8")
             )
             return text
-        return result.stdout.decode("utf-8")
+        formatted_text = result.stdout.decode("utf-8")
+
+        try:
+            ast.parse(formatted_text)
+        except SyntaxError:
+            raise_problem(
+                f"""\
+[b]The format_command '{escape(format_command)}' returned code which is not valid python.[/b]
+The unformatted code is used instead.
+"""
+            )
+            return text
+
+        return formatted_text
 
     try:
         from black import format_str
